@@ -504,3 +504,24 @@ pub fn relation_cases(ctx: &mut Ctx) {
         subject(ctx, "sha256-preimage", &ShaRel, inst, w, wrong, 1);
     }
 }
+
+
+/// Identity lines of the keys of two standard-library relations (for the cross-process
+/// comparison of `main.rs`).
+pub fn identity_lines() -> Vec<String> {
+    fn one<R: Relation>(name: &str, relation: &R) -> String {
+        let k = MidnightCircuit::from_relation(relation).min_k();
+        let params = setup(k, 2000 + k as u64);
+        let vk = midnight_zk_stdlib::setup_vk(&params, relation);
+        let pk = midnight_zk_stdlib::setup_pk(relation, &vk);
+        let dig = |b: &[u8]| hex(blake2b_simd::Params::new().hash_length(16).hash(b).as_bytes());
+        format!(
+            "rel-{name} k={k} mvk={} trepr={} mpk={} derived={}",
+            dig(&mvk_bytes(&vk, SerdeFormat::RawBytes)),
+            fhex(&vk.vk().transcript_repr()),
+            dig(&mpk_bytes(&pk, SerdeFormat::RawBytes)),
+            pk_full_digest(pk.pk())
+        )
+    }
+    vec![one("square-default", &Square { architecture: ZkStdLibArch::default() }), one("poseidon", &PoseidonRel)]
+}
